@@ -35,7 +35,8 @@ PROBES = ["waiter_cancelled_while_subscribed", "subscriber_block_left_by_excepti
           "delayed_resend_of_copy", "two_rlv_commands_both_handled", "rlv_partially_handled",
           "truthy_with_pending_take", "packet_hook_swallowed", "illegal_followup_rejected", "lifecycle_hook_raised",
           "send_orig_by_addon", "mutated_forward", "take_false_subscriber_saw_original", "late_send_of_observed_original",
-          "drop_after_take", "command_channel", "hook_raised", "subscriber_predicate_raised", "object_hook_raised", "object_update_hooks",
+          "drop_after_take", "command_channel", "hook_raised", "subscriber_predicate_raised", "waiting_subscriber_asked",
+          "two_waiting_subscribers_same_message", "subscribed_from_inside_a_handler", "object_hook_raised", "object_update_hooks",
           "object_kill_hooks", "object_hook_raised_then_others_ran"]
 COMPONENTS = {
     "real": ["AddonManager.init / _call_all_addon_hooks / _call_module_hooks / _try_call_hook / handle_lludp_message "
@@ -80,7 +81,8 @@ def gen_plan(rng: random.Random, tier: str) -> dict:
         # permanent plain subscribers on the session handler, in subscription order: a failing one must not
         # keep the ones after it from being notified
         "plain_subs": rng.choice([[], ["observe"], ["raise", "observe"], ["observe", "raise", "observe"],
-                                  ["pred_raise", "observe"], ["observe", "pred_raise", "raise", "observe"]]),
+                                  ["pred_raise", "observe"], ["observe", "pred_raise", "raise", "observe"],
+                                  ["rearm", "observe"], ["observe", "rearm"]]),
         # the same on every region's handler
         "plain_subs_region": rng.choice([[], [], ["observe"], ["raise", "observe"], ["pred_raise", "observe"]]),
     }
@@ -537,7 +539,14 @@ def run_plan(plan: dict) -> RunResult:
                 if kind_ == "raise":
                     res.probe("plain_subscriber_raised")
                     raise make_exc("ValueError", "plain message_handler subscriber")
+                if kind_ == "rearm" and rearmed[0] < 3 and msg.name in ("ChatFromViewer", "ChatFromSimulator"):
+                    # arms a one-off wait for the *follow-up* message from inside the handler of this one
+                    rearmed[0] += 1
+                    res.probe("subscribed_from_inside_a_handler")
+                    op_subscribe({"level": "session", "r": 0, "names": [msg.name], "take": True, "mode": "wait_for",
+                                  "consume": "resend", "timeout": 0.5, "exit": "normal", "cancel_after": 0.0})
             return _h
+        rearmed = [0]
 
         keep_alive = []
 
@@ -653,23 +662,30 @@ def run_plan(plan: dict) -> RunResult:
                     return
                 handler = region.message_handler
             take = st["take"]
-            sub = {"take": take, "st": st, "got": []}
+            sub = {"take": take, "st": st, "got": [], "idx": len(subs), "t_sub": loop.time(), "pred_calls": 0,
+                   "level": st["level"], "region_obj": region, "born_in": world._current}
             subs.append(sub)
 
             def predicate(msg):
                 # runs synchronously right before the repo's handler takes / observes the message
                 tag = tag_of_message(msg)
+                sub["pred_calls"] += 1
+                if sub["born_in"] is not None and sub["born_in"] is world._current:
+                    # subscribed from inside a handler while this very message was being dispatched
+                    violate("C07/isolation/notified-of-message-older-than-subscription", tag=tag, mode=st["mode"],
+                            take=take)
                 if sub.get("gone"):
                     # the subscriber is gone (block ended normally / by exception / by cancellation, future resolved /
                     # timed out / cancelled): nothing may still be *taking* messages on its behalf
                     # (not recorded as a take: the ownership model then expects the message to be forwarded, and the
                     #  wire check reports it as lost if a leftover subscription took it anyway)
-                    rec.add(kind="stale_subscription_notified", tag=tag, how=sub["gone"], mode=st["mode"], take=take)
+                    rec.add(kind="stale_subscription_notified", tag=tag, how=sub["gone"], mode=st["mode"], take=take,
+                            sub=sub["idx"])
                     return True
                 if take:
-                    rec.add(kind="take", tag=tag, by="subscriber", effective=not msg.finalized)
+                    rec.add(kind="take", tag=tag, by="subscriber", effective=not msg.finalized, sub=sub["idx"])
                 else:
-                    rec.add(kind="observe", tag=tag, by="subscriber")
+                    rec.add(kind="observe", tag=tag, by="subscriber", sub=sub["idx"])
                     res.probe("take_false_subscriber_saw_original")
                 if region is not None:
                     sub["region"] = region
@@ -902,6 +918,36 @@ def run_plan(plan: dict) -> RunResult:
                                    "handle_object_updated", swallowed)
                 if stopped:
                     return
+            # ---- every subscriber that is (still) waiting for this kind of message is asked about it --------------
+            if not swallowed:
+                now_ = loop.time()
+                asked = {}
+                for e in entries:
+                    if e.get("sub") is not None:
+                        asked[e["sub"]] = asked.get(e["sub"], 0) + 1
+                msg_region = world.region_obj(0, exp.far)
+                for sb in subs:
+                    st_s = sb["st"]
+                    if sb["born_in"] is a or exp.name not in st_s["names"] or sb.get("gone"):
+                        continue
+                    if sb["level"] == "region" and sb["region_obj"] is not msg_region:
+                        continue
+                    if sb["pred_calls"] - asked.get(sb["idx"], 0) > 0:
+                        continue      # already had (one of) its message(s): may or may not still be listening
+                    horizon = st_s.get("timeout") or (0.3 if st_s["mode"] == "async" else None)
+                    if horizon is not None and now_ >= sb["t_sub"] + horizon - 1e-6:
+                        continue
+                    if st_s.get("exit") == "cancel" and now_ >= sb["t_sub"] + st_s.get("cancel_after", 0.0) - 1e-6:
+                        continue
+                    if st_s["mode"] == "async" and not sb["t_sub"] < now_ - 1e-9:
+                        continue      # its task may not have entered the block yet
+                    if asked.get(sb["idx"], 0) != 1:
+                        return violate("C07/isolation/subscriber-skipped", tag=tag, level=sb["level"], mode=st_s["mode"],
+                                       asked=asked.get(sb["idx"], 0), want=1, subscribed_at=sb["t_sub"],
+                                       others_asked=sorted(asked))
+                    res.probe("waiting_subscriber_asked")
+                    if len(asked) > 1:
+                        res.probe("two_waiting_subscribers_same_message")
             # ---- exceptions must not escape a valid datagram's handling ------------------------------
             if a.escaped is not None:
                 takers = [e for e in entries if e["kind"] == "take" and e.get("effective")]
